@@ -3,6 +3,8 @@ from __future__ import annotations
 
 import copy
 
+import attrs
+
 from .. import impl
 from ..explore import explore_roots, get_mm, root_class, leaf_exc, jround
 from ..mm import ref, ANY_ALIASES
@@ -186,11 +188,16 @@ def sibling_fragments(mm, props):
 
 
 def insert(j, path, name, payload):
-    j2 = copy.deepcopy(j)
+    """Copy of j with `name: payload` added to the object at path; only the containers along the path are copied
+    (the converter never mutates its input)."""
+    def cp(x):
+        return dict(x) if isinstance(x, dict) else list(x)
+    j2 = cp(j)
     cur = j2
     for step in path:
+        cur[step] = cp(cur[step])
         cur = cur[step]
-    cur[name] = payload
+    cur[name] = copy.deepcopy(payload)
     return j2
 
 
@@ -200,18 +207,37 @@ def combos(full):
     return [(n, PAYLOADS[4]) for n in NAMES] + [(NAMES[0], p) for p in PAYLOADS[:4]]
 
 
-def run_one(mm, name, j, path, uname, payload):
+def _first_difference(a, b, path="", depth=0):
+    """Where two structured results differ (attribute path and the two class names) - cheap, no full repr."""
+    if type(a) is not type(b):
+        return "%s: %s instead of %s" % (path or ".", type(b).__name__, type(a).__name__)
+    if depth < 30 and attrs.has(type(a)):
+        for f in attrs.fields(type(a)):
+            x, y = getattr(a, f.name, None), getattr(b, f.name, None)
+            if x != y:
+                return _first_difference(x, y, path + "." + f.name, depth + 1)
+    if depth < 30 and isinstance(a, (list, tuple)) and len(a) == len(b):
+        for i, (x, y) in enumerate(zip(a, b)):
+            if x != y:
+                return _first_difference(x, y, "%s[%d]" % (path, i), depth + 1)
+    return "%s: %s" % (path or ".", repr(b)[:120])
+
+
+def run_one(mm, name, j, path, uname, payload, base=None):
     conv = impl.converter()
     cls = root_class(name)
-    o = conv.structure(j, cls)
-    u = jround(conv.unstructure(o, cls))
+    if base is None:
+        o = conv.structure(j, cls)
+        u = jround(conv.unstructure(o, cls))
+    else:
+        o, u = base
     jp = insert(j, path, uname, payload)
     try:
         o2 = conv.structure(jp, cls)
     except Exception as e:  # noqa: BLE001
         return "raise", list(leaf_exc(e)), jp
     if o2 != o:
-        return "result-differs", repr(o2)[:300], jp
+        return "result-differs", _first_difference(o, o2), jp
     u2 = jround(conv.unstructure(o2, cls))
     if u2 != u:
         return "json-differs", u2, jp
@@ -231,6 +257,7 @@ def judge(mm, name, j, opts):
     nodes = object_nodes(mm, j, ref(name))
     n = 1
     vs = []
+    nbad = [0]
     for path in nodes:
         node_combos = list(combos(opts.get("full")))
         props = declared_at(mm, j, ref(name), path)
@@ -247,8 +274,11 @@ def judge(mm, name, j, opts):
                     node_combos.append((rn, "s"))
         for uname, payload in node_combos:
             n += 1
-            st, obs, jp = run_one(mm, name, j, path, uname, payload)
+            st, obs, jp = run_one(mm, name, j, path, uname, payload, base=(o, u))
             if st != "ok":
+                nbad[0] += 1
+                if nbad[0] > 40:
+                    continue            # enough exemplars from this one value; the verdict is already "affected"
                 # site: class of the node = innermost declaration on the path is not tracked; use root + key path
                 site = name + "".join("." + s if isinstance(s, str) else "[]" for s in path)
                 vs.append(Violation(PROP, st, site, "unknown property %r added at %s: %s %s" % (uname, site, st, str(obs)[:120]),
@@ -272,7 +302,7 @@ def _site_task(args):
     for alt in ort["items"]:
         if is_null_type(alt):
             continue
-        for slabel, v in [x for x in c14.shapes(mm, vse, alt, k, site_or=ort) if x[0] != "long"]:
+        for slabel, v in [x for x in c14.shapes(mm, vse, alt, k, site_or=ort) if x[0] not in ("long", "keyname") and "/" not in x[0]]:
             if slabel.startswith("max-") or (slabel == "pair" and not full):
                 continue
             for rname, rt, rpath in roots:
